@@ -14,7 +14,8 @@
           expected_version = None; consistency_time = None
       if backlog.empty(): pressure.clear()
       newer_patch_version = await processor(raw_event, stream_pressure=pressure, consistency_time=consistency_time)
-      if newer_patch_version is not None and settings.persistence.consistency_timeout:
+      if newer_patch_version is not None and settings.persistence.consistency_timeout \
+              and newer_patch_version != get_version(raw_event):            -- fix 460c956
           expected_version = newer_patch_version
           consistency_time = loop.time() + settings.persistence.consistency_timeout
 
@@ -172,10 +173,12 @@ def processIn (order : List Stage) (deadline : Option Int) (it : Iter) : Outcome
 /-- The processor: the stages in kopf's order. -/
 def process (deadline : Option Int) (it : Iter) : Outcome := processIn kopfOrder deadline it
 
-/-- `if newer_patch_version is not None and settings.persistence.consistency_timeout: …` -/
+/-- `if newer_patch_version is not None and settings.persistence.consistency_timeout
+        and newer_patch_version != get_version(raw_event): …` (fix 460c956: a PATCH that changed nothing is
+    answered with the version that has just been processed; no event will bring it again, nothing is armed). -/
 def feedback (T : Int) (s : WState) (it : Iter) : WState :=
   match it.patched with
-  | some p => if T ≠ 0 then { expected := some p, deadline := some (it.tret + T) } else s
+  | some p => if T ≠ 0 ∧ some p ≠ it.ver then { expected := some p, deadline := some (it.tret + T) } else s
   | none => s
 
 /-- One full worker iteration: reset-on-arrival, the processor, the feedback. -/
